@@ -187,7 +187,7 @@ def _report(r, seen, clause, fn, msg, sig):
     r.check(clause, False, fn, msg, sig)
 
 
-NAV_BUDGET = {1: 200, 2: 600, 3: 2000, 4: 10000}
+NAV_BUDGET = {1: 200, 2: 600, 3: 2000, 4: 4000}
 
 
 def run_case(recipe):
@@ -221,7 +221,10 @@ def run_case(recipe):
             given = mrec["assets"][x][3].get(s) if len(mrec["assets"][x]) > 3 and mrec["assets"][x][3] else None
             current[(x, s)] = (float(given), "set") if given is not None else (float(getattr(objs[x], s)), "default")
 
-    st, g = real.generate()
+    st, g = real.generate([(e, [x]) for (x, s) in expected for e in
+                           (steps_of[mv.types[x]][s]["exprs"] or []) + (steps_of[mv.types[x]][s]["requires"] or [])])
+    if st == "skip":
+        return r
     if st != "ok":
         b = None
         for (x, s) in expected:
